@@ -39,7 +39,7 @@ func refSplice(text string, sl, sc, el, ec uint32, with string) string {
 func symText(name string, max int) string {
 	s := symString(name, max)
 	for i := 0; i < len(s); i++ {
-		symAssume(s[i] == 'a' || s[i] == '\n')
+		symAssume(s[i] == 'a' || s[i] == '\n' || s[i] == '\r')
 	}
 	return s
 }
